@@ -5,7 +5,7 @@ from __future__ import annotations
 import ast
 
 from mpsa.cfg import CFG, Node, calls_in, header_expr, walk_shallow
-from mpsa.flow import fmt_path, path_avoiding, reachable, reaching_defs
+from mpsa.flow import assigned_names, fmt_path, path_avoiding, reachable, reaching_defs
 from mpsa.guard import Guard
 from mpsa.loader import FuncInfo, dotted, norm_text
 from mpsa.match import Scope, is_name, is_none, kwarg, method_of, unwrap_await, walk_shallow_func
@@ -258,6 +258,17 @@ def check_wrapping(ck: Checker, rid: str, f: FuncInfo, out_q: set):
             if not isinstance(v, ast.Name):
                 ck.ob(rid, f, c, True, f'payload `{norm_text(v)[:40]}` is not an exception-carrying variable', nontrivial=False)
                 continue
+            if n.loops and cfg.nodes[n.loops[-1]].kind == 'for':
+                # `for u, y in zip(uids, yy): q_out.put((u, y))` : the same fan-out with the pair taken apart
+                hn = cfg.nodes[n.loops[-1]]
+                tg, it = hn.ast.target, hn.ast.iter
+                if isinstance(tg, ast.Tuple) and isinstance(it, ast.Call) and dotted(it.func) == 'zip' and len(it.args) == len(tg.elts):
+                    pos = [i for i, e in enumerate(tg.elts) if is_name(e, v.id)]
+                    if len(pos) == 1 and isinstance(it.args[pos[0]], ast.Name) and v.id not in {x for m in cfg.nodes if hn.id in m.loops for x in assigned_names(m)}:
+                        src = it.args[pos[0]].id
+                        ok = g.excluded(hn.id, src, 'Exception')
+                        ck.ob(rid, f, c, ok, f'batch results `{src}` are split only on the branch where the batch outcome is proven not to be an Exception' if ok else f'`{src}` may be an Exception when it is zipped with the ids')
+                        continue
             S = g.at(n.id)
             bad = []
             for d in S:
